@@ -380,12 +380,14 @@ struct Tl {
 	/// (time of the frame, left)
 	out: Vec<(f64, f32)>,
 	change_at: Option<(f64, u32)>,
+	/// time at which the planned change was really applied (a callback boundary)
+	changed_at: Option<f64>,
 	sizes_seed: Rng,
 }
 
 impl Tl {
 	fn new(rig: Rig, change_at: Option<(f64, u32)>, seed: u64) -> Tl {
-		Tl { rig, t: 0.0, out: vec![], change_at, sizes_seed: Rng::new(seed) }
+		Tl { rig, t: 0.0, out: vec![], change_at, changed_at: None, sizes_seed: Rng::new(seed) }
 	}
 	fn rate(&self) -> u32 {
 		self.rig.cfg.sample_rate
@@ -407,6 +409,7 @@ impl Tl {
 				if self.t >= tc {
 					self.rig.change_sample_rate(sr);
 					self.change_at = None;
+					self.changed_at = Some(self.t);
 				}
 			}
 			self.callback();
@@ -646,18 +649,22 @@ fn s_delay(r: &mut Rng, c: &Cell) -> Result<(), String> {
 	let mut tl = Tl::new(rig, None, r.next());
 	tl.run_until(td + 0.012);
 	let edges = tl.rising_edges(0.25);
+	if std::env::var("KVH_DEBUG").is_ok() {
+		eprintln!("t_end {} out: {:?}", tl.t, tl.out.iter().filter(|x| x.1 != 0.0).map(|x| (format!("{:.6}", x.0), x.1)).collect::<Vec<_>>());
+	}
 	let frames = (td * r2 as f64).floor() / r2 as f64;
 	let tol = 3.0 / r2 as f64;
 	// the wet signal is the delay line scaled by the feedback (-1 dB): the burst recurs every `frames` seconds
-	let horizon = (tl.t - 0.001).min(4.5 * frames); // 4 recurrences stay above the detection level
+	let horizon = (tl.t - 0.001).min(4.5 * frames) - 2.0 * tol; // 4 recurrences stay above the detection level
 	let mut want: Vec<f64> = if scene.direct { vec![0.0] } else { vec![] };
 	let mut k = 1.0;
 	while k * frames < horizon {
 		want.push(k * frames);
 		k += 1.0;
 	}
-	let edges: Vec<f64> = edges.into_iter().filter(|t| *t < horizon).collect();
-	let ok = edges.len() == want.len() && edges.iter().zip(want.iter()).all(|(a, b)| (a - b).abs() <= tol);
+	// edges and recurrences inside the last 2 tolerances before the horizon are not judged (either side of it)
+	let edges: Vec<f64> = edges.into_iter().filter(|t| *t < horizon + tol).collect();
+	let ok = want.iter().all(|w| edges.iter().any(|e| (e - w).abs() <= tol)) && edges.iter().all(|e| *e >= horizon - tol || want.iter().any(|w| (e - w).abs() <= tol));
 	if !ok {
 		return Err(format!("wet-only delay of {:.6} s on {:?} ({:?}, device {} -> {} Hz, buffer {}): a 2 ms burst played at 0 s should appear at {:?} s, output rises at {:?} s", td, place, timing, c.r1, r2, c.ibs, want, edges));
 	}
@@ -673,13 +680,20 @@ fn s_filter(r: &mut Rng, c: &Cell) -> Result<(), String> {
 	let n = (fs as f64 / fc * 8.0).round() as usize; // not an exact number of periods: irrelevant, we loop nothing
 	let _ = n;
 	let total = 0.09;
-	let frames: Vec<f32> = (0..(total * fs as f64) as usize + 4800).map(|k| 0.5 * (std::f64::consts::TAU * fc * k as f64 / fs as f64).sin() as f32).collect();
+	let frames: Vec<f32> = (0..(total * fs as f64) as usize + 9600).map(|k| 0.5 * (std::f64::consts::TAU * fc * k as f64 / fs as f64).sin() as f32).collect();
 	let measure = |r1: u32, change: Option<(f64, u32)>, seed: u64| -> Result<(f64, f64), String> {
 		let mut rig = Rig::simple(r1, c.ibs);
 		let mut t = rig.mgr.add_sub_track(TrackBuilder::new().with_effect(FilterBuilder::new().mode(mode).cutoff(fc).resonance(res))).map_err(|_| "t")?;
 		let _h = t.play(sound(fs, frames.clone())).map_err(|_| "play")?;
 		let mut tl = Tl::new(rig, change, seed);
 		tl.run_until(total);
+		// the late window starts 20 ms after the change was really applied (callbacks can be tens of ms long)
+		let late = match (change, tl.changed_at) {
+			(Some(_), Some(tc)) => tc + 0.02,
+			(Some(_), None) => return Err("planned rate change was never applied".into()),
+			_ => 0.07,
+		};
+		tl.run_until(late + 0.02);
 		let rms = |a: f64, b: f64| {
 			let v: Vec<f64> = tl.out.iter().filter(|(t, _)| *t >= a && *t < b).map(|x| x.1 as f64).collect();
 			(v.iter().map(|x| x * x).sum::<f64>() / v.len().max(1) as f64).sqrt()
@@ -687,13 +701,16 @@ fn s_filter(r: &mut Rng, c: &Cell) -> Result<(), String> {
 		// windows of a whole number of periods
 		let per = 1.0 / fc;
 		let w = (0.015 / per).floor() * per;
-		Ok((20.0 * (rms(0.02, 0.02 + w) / (0.5 / 2f64.sqrt())).log10(), 20.0 * (rms(0.07, 0.07 + w) / (0.5 / 2f64.sqrt())).log10()))
+		Ok((20.0 * (rms(0.02, 0.02 + w) / (0.5 / 2f64.sqrt())).log10(), 20.0 * (rms(late, late + w) / (0.5 / 2f64.sqrt())).log10()))
 	};
 	let seed = r.next();
 	let (a1, a2) = measure(c.r1, None, seed)?;
 	let rb = c.r2.unwrap_or(*r.pick(&RATES));
 	let (b1, b2) = measure(c.r1, Some((0.04, rb)), seed)?;
 	let (c1, _) = measure(rb, None, seed)?;
+	if std::env::var("KVH_DEBUG").is_ok() {
+		eprintln!("a1 {} a2 {} b1 {} b2 {} c1 {} c2 {}", a1, a2, b1, b2, c1, measure(rb, None, seed)?.1);
+	}
 	for (name, x, y) in [("same rate, early vs late window", a1, a2), ("before the change", a1, b1), ("after the change vs never changed", a2, b2), ("other device rate", a1, c1)] {
 		if (x - y).abs() > 0.25 {
 			return Err(format!("{:?} filter, cutoff {:.1} Hz, resonance {:.2}: gain at the cutoff differs ({}): {:.3} dB vs {:.3} dB (device {} Hz, then {} Hz, buffer {})", mode, fc, res, name, x, y, c.r1, rb, c.ibs));
